@@ -168,7 +168,7 @@ def run_case(case, ctx):
 		if pj is None or matched[pj] is None or not F.is_ancestor_or_self(pred, matched[pj]):
 			raise Violation('primary_not_below', f'primary match genome {pj} (matched taxon {None if pj is None else matched[pj]}) is not at/below prediction {pred}', one)
 		cand = [dists[j] for j in range(n) if matched[j] is not None and F.is_ancestor_or_self(pred, matched[j])]
-		if J.float_to_bits(pm.distance) != J.float_to_bits(min(cand)) or J.float_to_bits(pm.distance) != J.float_to_bits(dists[pj]):
+		if float(pm.distance) != float(min(cand)) or float(pm.distance) != float(dists[pj]):
 			raise Violation('primary_not_nearest', f'primary match distance {float(pm.distance)!r}, nearest qualifying genome is at {min(cand)!r}', one)
 		if ti(pm.matched_taxon) != matched[pj]:
 			raise Violation('primary_matched_taxon', f'primary match matched_taxon {ti(pm.matched_taxon)} != {matched[pj]}', one)
